@@ -40,12 +40,17 @@ FlatOff(r, p) == IF p > Len(r.sorted) THEN << >>
                  ELSE LET c == r.posted[r.sorted[p] + 1] IN [k \in 1..Len(c.vars) |-> r.voff[c.vars[k] + 1]] \o FlatOff(r, p + 1)
 
 Verdicts(r) ==
-  (IF ~IsPerm(r) THEN {"C13:sort-not-a-permutation"} ELSE
-     (IF ~IsStable(r) THEN {"C13:sort-not-stable"} ELSE {})
+  \* Only what the properties demand can be a violation: every posted constraint is kept exactly once (C13) and
+  \* every event a constraint declares on a domain reaches the matrix (C08; waking MORE is allowed).  The exact
+  \* order (stable sort by complexity) and the layout of the cached arrays are mirrors of the current code: DRIFT.
+  (IF ~IsPerm(r) THEN {"C13:init-loses-or-duplicates-a-constraint"} ELSE
+     (IF ~IsStable(r) THEN {"DRIFT:sort-not-stable-by-complexity"} ELSE {})
+     \cup (IF \E d \in 0..(r.nd - 1), p \in 1..Len(r.sorted) : BitOr(r.trig[d + 1][p], ExpectedTrig(r, d, p)) # r.trig[d + 1][p]
+           THEN {"C08:trigger-matrix-misses-a-declared-event"} ELSE {})
      \cup (IF \E d \in 0..(r.nd - 1), p \in 1..Len(r.sorted) : r.trig[d + 1][p] # ExpectedTrig(r, d, p)
-           THEN {"C08:trigger-matrix"} ELSE {})
+           THEN {"DRIFT:trigger-matrix-differs"} ELSE {})
      \cup (IF r.pidx # FlatIdx(r, 1) \/ r.poff # FlatOff(r, 1)
-           THEN {"C13:flattened-arrays"} ELSE {}))
+           THEN {"DRIFT:flattened-arrays"} ELSE {}))
 
 VARIABLE i
 Init == i = 1
